@@ -803,7 +803,7 @@ def _pworker(chunk):
 
     from vf import core
 
-    prop, enabled, make_step, step_timeout = _PWORK
+    prop, enabled, make_step, step_timeout, ctx = _PWORK
     rec = core.Rec(prop)
     step = make_step(rec)
     out = []
@@ -827,7 +827,7 @@ def _pworker(chunk):
                 except StepTimeout:
                     tb = traceback.format_exc()
                     sig = core.classify_crash(tb.replace("StepTimeout", "ShardTimeout")) or "hang (no sqlalchemy frame)"
-                    rec.violation("%s: %s op=%s" % (prop, sig, op[0]), tb, dict(kind="hang", history=[list(h) for h in hist_], op=list(op)))
+                    rec.violation("%s: %s op=%s" % (prop, sig, op[0]), tb, dict(kind="hang", ctx=ctx, history=[list(h) for h in hist_], op=list(op)))
                     res = None
                 finally:
                     signal.setitimer(signal.ITIMER_VIRTUAL, 0)
@@ -839,13 +839,19 @@ def _pworker(chunk):
     return rec, out
 
 
-def explore_levels(rec, prop, roots, enabled, make_step, depth, jobs, chunk=6, step_timeout=60, warm=None):
+def explore_levels(rec, prop, roots, enabled, make_step, depth, jobs, chunk=6, step_timeout=60, warm=None, ctx=None):
     """roots: [(history, model_state, key)]; enabled(ms) -> ops; make_step(rec) ->
     step(history, ms, op) -> (ms2, key) | None.  Returns the deepest level with new states."""
     import multiprocessing as mp
 
     global _PWORK
-    _PWORK = (prop, enabled, make_step, step_timeout)
+    if depth is not None and os.environ.get("VF_MAXDEPTH"):
+        # development aid (mutation self-tests): cap the exploration depth; evidence then says so
+        cap = int(os.environ["VF_MAXDEPTH"])
+        if cap < depth:
+            depth = cap
+            rec.cap("VF_MAXDEPTH=%d set: depth capped" % cap)
+    _PWORK = (prop, enabled, make_step, step_timeout, ctx)
     scratch_root()  # owned by this (master) process; workers use sub-directories
     _template()
     for wcfg, whist in warm or ():
